@@ -923,10 +923,10 @@ def run(ctx):
         for case in CORPUS:
             check_case(ctx, case, model)
         kinds = ["fresh", "fresh", "machine", "mode"]
-        for i in range(ctx.n(420, 9000)):
+        for i in range(ctx.n(800, 9000)):
             r = ctx.rng("delay", i)
             check_case(ctx, gen_delay_case(r, kinds[i % 4]), model)
-        for i in range(ctx.n(260, 5000)):
+        for i in range(ctx.n(450, 5000)):
             check_timer_case(ctx, gen_timer_case(ctx.rng("timer", i)))
     finally:
         if model is not None:
